@@ -10,9 +10,9 @@ import (
 
 func c01Opts(tier string) (map[string]interface{}, int, time.Duration) {
 	if tier == "thorough" {
-		return map[string]interface{}{"max_reorg": 3, "max_queue": 3, "max_height": 8}, 6, 25 * time.Minute
+		return map[string]interface{}{"max_reorg": 3, "max_queue": 3, "max_height": 8}, 7, 25 * time.Minute
 	}
-	return map[string]interface{}{"max_reorg": 2, "max_queue": 2, "max_height": 6}, 3, 150 * time.Second
+	return map[string]interface{}{"max_reorg": 2, "max_queue": 2, "max_height": 6}, 6, 170 * time.Second
 }
 
 func init() {
